@@ -3,7 +3,14 @@
 #   with the change: the repository's tests pass and the demonstration FAILS; without it the demonstration PASSES.
 set -u
 WT="$1"; M="$2"; cd "$WT" || exit 9
-CMD=$(python3 -c "import json,re;print(re.sub(r'\\s*;\\s*rm -rf [^;]*$','',json.load(open('seeded_out/$M/meta.json'))['demo_cmd']))")
+CMD=$(python3 - "$M" <<'PY'
+import json,re,sys
+c=json.load(open('seeded_out/%s/meta.json'%sys.argv[1]))['demo_cmd']
+c=re.sub(r'\([^)]*\)','',c)            # parenthetical remarks
+c=re.sub(r'\s*;\s*rm -rf [^;&]*$','',c)  # trailing clean-up would mask the exit code
+print(c.strip())
+PY
+)
 git checkout -q -- . ; git clean -fdq crates >/dev/null 2>&1
 git apply "seeded_out/$M/patch.diff" || { echo "APPLY-FAILED"; exit 8; }
 T=$(timeout 900 cargo test --workspace --offline 2>&1 | grep -E "^test result" | grep -vc " 0 failed")
